@@ -47,8 +47,37 @@ def worker_env(hooks=True, extra=None):
     return e
 
 
-def run(driver: str, scenarios: list, *, nproc: int = 16, timeout: int = 600, hooks=True, extra_env=None, chunking="stride"):
-    """Returns list of results aligned with scenarios.  A worker crash is a machinery error."""
+def run(driver: str, scenarios: list, *, nproc: int = 16, timeout: int = 600, hooks=True, extra_env=None, chunking="stride", retry=True):
+    """Returns list of results aligned with scenarios.
+
+    A worker that dies or is ended by its per-scenario watchdog loses the scenario it was in (the
+    "suspect") and everything after it in its batch.  Those are run again in fresh workers - the rest in
+    normal batches, every suspect alone - so that one wedged scenario (xonsh's thread web does wedge now
+    and then under load) costs one retry instead of the whole check.  A suspect that fails again stays
+    marked `worker_failed` (with `retried`) for the caller to judge."""
+    results = _run_pass(driver, scenarios, nproc=nproc, timeout=timeout, hooks=hooks, extra_env=extra_env)
+    if not retry:
+        return results
+    missing = [i for i, r in enumerate(results) if isinstance(r, dict) and r.get("worker_failed")]
+    if not missing:
+        return results
+    suspects = [i for i in missing if results[i].get("first_missing")]
+    others = [i for i in missing if not results[i].get("first_missing")]
+    if others:
+        r2 = run(driver, [scenarios[i] for i in others], nproc=nproc, timeout=timeout, hooks=hooks, extra_env=extra_env, retry=len(others) < len(scenarios))
+        for i, r in zip(others, r2):
+            results[i] = r
+    for i in suspects[:8]:
+        r1 = _run_pass(driver, [scenarios[i]], nproc=1, timeout=min(timeout, 400), hooks=hooks, extra_env=extra_env)[0]
+        if isinstance(r1, dict) and r1.get("worker_failed"):
+            r1["retried"] = True
+        results[i] = r1
+    for i in suspects[8:]:
+        results[i]["retried"] = False
+    return results
+
+
+def _run_pass(driver: str, scenarios: list, *, nproc: int = 16, timeout: int = 600, hooks=True, extra_env=None):
     if not scenarios:
         return []
     nproc = max(1, min(nproc, len(scenarios)))
